@@ -124,7 +124,8 @@ func DrawOptions(t *Tape, p OptProfile) *neat.Options {
 	}
 	switch t.Pick("st", 2, 3, 1) {
 	case 0:
-		o.SurvivalThresh = 0.2
+		// the shipped value and other round fractions: survival_thresh * n is then a whole number for many species sizes
+		o.SurvivalThresh = []float64{0.2, 0.5, 0.25, 0.1}[t.Pick("st.round", 3, 1, 1, 1)]
 	case 1:
 		o.SurvivalThresh = 0.01 + 0.99*t.Float("SurvivalThresh")
 	case 2:
